@@ -504,6 +504,26 @@ def build(run):
         if not isinstance(r, int):
             return r
         n += r
+        # linearity over weighted sums whose components may vanish under differentiation: d(w1 X + w2 Y) == w1 dX + w2 dY for
+        # every order, every pair of weights and every pair of components (0-forms c(f), forms, cofunctions)
+        comps = {"c_V(f2)": Action(P["c_V"], P["f2"]), "c2_V(f)": Action(P["c2_V"], f), "c_V(f)": Action(P["c_V"], f), "J": P["J"]}
+        dcomp = {}
+        for nm, x in comps.items():
+            dcomp[nm] = M.den(expand_derivatives(derivative(x, f)))
+        zero1 = (dcomp["c2_V(f)"][0], {ix: 0 for ix in dcomp["c2_V(f)"][1]})
+        for (na, xa), (nb, xb) in itertools.permutations(comps.items(), 2):
+            for wa, wb in ((1, 3), (3, 1), (1, -1), (-1, 2), (1, 1)):
+                Ssum = wa * xa + wb * xb
+                name = f"derivative({wa}*{na} + {wb}*{nb}, f) == {wa}*d{na} + {wb}*d{nb}"
+                try:
+                    got = expand_derivatives(derivative(Ssum, f))
+                except Exception as ex:  # noqa: BLE001
+                    return violated(f"{name}: raised {type(ex).__name__}: {ex}", replay={"case": name}, reproduced=True)
+                parts = [(dcomp[q] if dcomp[q] is not None and dcomp[q][1] else zero1, w_) for q, w_ in ((na, wa), (nb, wb))]
+                r = compare(M, name, got, M.sum_spec(parts), None)
+                if not isinstance(r, int):
+                    return r
+                n += r
         # d/dc c = identity (Coargument)
         c = P["c_V"]
         got = expand_derivatives(derivative(c, c))
